@@ -103,10 +103,16 @@ def helperCallsResolved (c : EstCls) : Bool :=
   (helpersOf c).all (fun h => (helperPredictCalls c).all (fun m =>
     (helperPredictClosure h).any (fun q => q.endsWith ("." ++ m))))
 
-/-- THE predict-purity flag of class `c` -/
-def predictPureSrc (c : EstCls) : Bool :=
+/-- the predict-purity flag of class `c` under a given list of prediction methods that call `validate_data(self, ..)` with
+    `reset=True` (sklearn then REWRITES the estimator's `n_features_in_` / `feature_names_in_` from the array to predict on:
+    a write into the estimator's own attributes, finding F5g): such a method makes the prediction impure -/
+def predictPureWith (resets : List String) (c : EstCls) : Bool :=
   (predictAssigned c).isEmpty && subset (predictSelfEscapes c) trustedPredictCallees &&
-  subset (predictOtherCalls c) trustedPredictObjectCalls && helperCallsResolved c && (helpersOf c).all helperPure
+  subset (predictOtherCalls c) trustedPredictObjectCalls && helperCallsResolved c && (helpersOf c).all helperPure &&
+  resets.isEmpty
+
+/-- THE predict-purity flag of class `c`: `predictPureWith` at the LIFTED `predictValidateResets c` -/
+def predictPureSrc (c : EstCls) : Bool := predictPureWith (predictValidateResets c) c
 
 /-- run the `predict` step of `M` through a purity flag: flag off = the state after a prediction is `taint`ed -/
 def guardPredict {σ : Type} (pure : Bool) (taint : σ → σ) (M : Machine σ) : Machine σ :=
